@@ -1,7 +1,7 @@
 (* Extract.v — extraction of the executable models to OCaml for the correspondence
    checks. ExtrOcamlBasic only: bool/option/list/prod/unit/sumbool map to OCaml's;
    nat, positive, N, Z stay inductive. No Extract Constant / Extract Inductive of our own. *)
-Require Import KV.Base KV.ConfigModel.
+Require Import KV.Base KV.ConfigModel KV.EstimatorModel KV.GhostModel.
 Require Import ExtrOcamlBasic.
 
 (* arithmetic the driver needs for decimal <-> Z conversion *)
@@ -12,6 +12,8 @@ Definition drv_divmod (a b : Z) : Z * Z := Z.div_eucl a b.
 (* stream dispatch: sid selects the model; cfg configures it; ops are integer-encoded *)
 Definition run_stream (sid : Z) (cfg : list Z) (ops : list (list Z)) : list (list Z) :=
   if sid =? 16 then run_out cfg_step tt ops
+  else if sid =? 19 then run_out est_step (est_init cfg) ops
+  else if sid =? 191 then run_out ghost_step (ghost_init cfg) ops
   else [].
 
 Extraction "model.ml" run_stream drv_add drv_mul drv_divmod.
